@@ -185,12 +185,26 @@ def main(pid, run, argv=None):
         ctx.notes["machinery_error"] = str(e)[:2000]
         ctx.write_evidence("machinery_error")
         return 2
-    except Exception:
+    except Exception as exc:
         tb = traceback.format_exc()
-        print("MACHINERY-ERROR property=%s: unexpected exception\n%s" % (pid, tb), flush=True)
-        ctx.notes["machinery_error"] = tb[-2000:]
-        ctx.write_evidence("machinery_error")
-        return 2
+        # an exception raised *inside the code under test* from a call the check did not guard is an
+        # observation about that code (it refused an input the property says it must handle), not a
+        # failure of the machinery; one raised in the check's own code is.
+        frames = traceback.extract_tb(exc.__traceback__)
+        last = frames[-1].filename if frames else ""
+        repo = os.path.abspath(os.environ.get("HOLOPY_REPO") or "/repo")
+        in_code_under_test = os.path.abspath(last).startswith(repo + os.sep)
+        if in_code_under_test:
+            where = "%s:%s" % (os.path.relpath(last, repo), frames[-1].name)
+            ctx.violation("unguarded_exception/%s/%s" % (where, type(exc).__name__),
+                          {"exc": repr(exc)[:300], "traceback": tb[-1500:]})
+            ctx.notes["aborted_early"] = "the check stopped at this exception; later sections did not run"
+        else:
+            print("MACHINERY-ERROR property=%s: unexpected exception\n%s" % (pid, tb), flush=True)
+            ctx.notes["machinery_error"] = tb[-2000:]
+            if not ctx.violations:
+                ctx.write_evidence("machinery_error")
+                return 2
     ctx.write_evidence("violations" if ctx.violations else "ok")
     if ctx.violations:
         import collections
